@@ -212,6 +212,66 @@ def check(prog, run):
         run.report(r, "%s:coerce_float:non-finite" % SCALARS, cf.where(),
                    "float('nan')/inf pass Float serialisation and json.dumps writes NaN/Infinity, which is not JSON")
 
+    # ---- K7 error conservation: one response entry per recorded error
+    r = run.rule("K7", "errors are conserved from add_error to the response: add_error appends unconditionally, the `errors` "
+                       "accessor returns the whole list, and GraphQLResult.response() emits one dictionary per element of "
+                       "self.errors (every loop / comprehension over self.errors is unfiltered: no `if`, `continue`, `break`, and "
+                       "exactly one append per iteration) — so each nulled position keeps its own error even when messages and "
+                       "locations coincide", 3)
+    rc = prog.get_class(WRAP, "ResolutionContext")
+    ae = rc.find_method("add_error")
+    shapes.require(ae is not None, "C10.K7: ResolutionContext.add_error not found")
+    run.looked_at(ae)
+    last = ae.node.body[-1]
+    ok = isinstance(last, ast.Expr) and isinstance(last.value, ast.Call) and isinstance(last.value.func, ast.Attribute) \
+        and last.value.func.attr == "append" and not any(isinstance(n, ast.Return) for n in ast.walk(ae.node))
+    r.instance("add_error ends with an unconditional append, no early return: %s" % ok)
+    if not ok:
+        run.report(r, "%s:ResolutionContext.add_error:conditional-append" % WRAP, ae.where(),
+                   "add_error does not unconditionally append the error (early return or conditional append): a field error can be dropped")
+    ep = rc.find_method("errors")
+    shapes.require(ep is not None, "C10.K7: ResolutionContext.errors not found")
+    rets = [n for n in own_nodes(ep.node) if isinstance(n, ast.Return)]
+    txt = [ast.unparse(x.value) for x in rets]
+    ok = len(rets) == 1 and txt[0] in ("self._errors[:]", "list(self._errors)", "self._errors", "self._errors.copy()")
+    r.instance("errors accessor returns %s" % txt)
+    if not ok:
+        run.report(r, "%s:ResolutionContext.errors:partial" % WRAP, ep.where(), "the errors accessor returns %s instead of the whole list" % txt)
+    resp = gr.methods.get("response")
+    shapes.require(resp is not None, "C10.K7: GraphQLResult.response not found")
+    run.looked_at(resp)
+    loops = 0
+
+    def over_errors(e, depth=0):
+        if any(isinstance(n, ast.Attribute) and n.attr == "errors" and isinstance(n.value, ast.Name) and n.value.id == "self" for n in ast.walk(e)):
+            return True
+        return False
+    for n in own_nodes(resp.node):
+        if isinstance(n, (ast.ListComp, ast.GeneratorExp, ast.SetComp, ast.DictComp)):
+            for g in n.generators:
+                if over_errors(g.iter):
+                    loops += 1
+                    r.instance("response(): comprehension over %s, filters: %d" % (ast.unparse(g.iter), len(g.ifs)))
+                    if g.ifs:
+                        run.report(r, "%s:GraphQLResult.response:filtered(%s)" % (WRAP, norm_stmt(g.ifs[0])), resp.where(n),
+                                   "the response drops errors for which `%s` is false" % norm_stmt(g.ifs[0]))
+                    if isinstance(n, (ast.SetComp, ast.DictComp)):
+                        run.report(r, "%s:GraphQLResult.response:collapsing-container" % WRAP, resp.where(n),
+                                   "errors are collected into a set/dict: equal entries collapse")
+        if isinstance(n, ast.For) and over_errors(n.iter):
+            loops += 1
+            conds = [x for st in n.body for x in ast.walk(st) if isinstance(x, (ast.If, ast.Continue, ast.Break, ast.Try, ast.IfExp))]
+            apps = [x for st in n.body for x in ast.walk(st) if isinstance(x, ast.Call) and isinstance(x.func, ast.Attribute) and x.func.attr in ("append", "add")]
+            r.instance("response(): for-loop over %s, conditionals: %d, appends: %d" % (ast.unparse(n.iter), len(conds), len(apps)))
+            if conds or len(apps) != 1:
+                run.report(r, "%s:GraphQLResult.response:conditional-loop" % WRAP, resp.where(n),
+                           "the loop over the errors contains %s: some errors are not emitted (an error with the same message and "
+                           "location but another path is a different error)" % (norm_stmt(conds[0]) if conds else "%d appends" % len(apps)))
+    shapes.require(loops >= 1, "C10.K7: response() no longer iterates over self.errors")
+    for n in own_nodes(resp.node):
+        if isinstance(n, ast.Call) and isinstance(n.func, ast.Name) and n.func.id in ("set", "deduplicate", "frozenset", "OrderedDict") and n.args and over_errors(n.args[0]):
+            run.report(r, "%s:GraphQLResult.response:collapsing-call(%s)" % (WRAP, n.func.id), resp.where(n), "%s(...) over the errors collapses equal entries" % n.func.id)
+
 
 def _defensive_default(raise_stmt):
     """Is this raise the trailing else of an if/elif chain on `<x>.operation == <kind>` covering all three kinds?"""
